@@ -36,6 +36,9 @@ pub enum Fault {
     DropRate { at: u64, dur: u64, per_mille: u64 },
     /// start a learner node that joins the cluster
     Join { at: u64, node: u32 },
+    /// event-anchored: armed at `at`; the voter that sends the `nth` granted vote response from then on is
+    /// crashed at that instant (reply on its way, whatever it persisted is all that survives)
+    CrashOnGrant { at: u64, nth: u32, power_loss: bool, down_ms: u64 },
 }
 
 impl Fault {
@@ -52,7 +55,8 @@ impl Fault {
             | Fault::DiskStall { at, .. }
             | Fault::ApplyStall { at, .. }
             | Fault::DropRate { at, .. }
-            | Fault::Join { at, .. } => *at,
+            | Fault::Join { at, .. }
+            | Fault::CrashOnGrant { at, .. } => *at,
         }
     }
     pub fn kind_name(&self) -> &'static str {
@@ -70,6 +74,7 @@ impl Fault {
             Fault::ApplyStall { .. } => "apply_stall",
             Fault::DropRate { .. } => "drop_rate",
             Fault::Join { .. } => "join",
+            Fault::CrashOnGrant { .. } => "crash_on_vote_grant",
         }
     }
 }
@@ -98,7 +103,7 @@ pub struct OpPlan {
     pub key: u8,
     /// 0 = believed leader (hint / notification), otherwise node id = (target-1) % n + 1
     pub target: u32,
-    /// 0 = raw ClientCmd (own oneshot), 1 = EmbeddedClient
+    /// 0 = raw ClientCmd (own oneshot), 1 = EmbeddedClient, 2 = tonic service method of Node<T> (gRPC handler)
     pub path: u8,
 }
 
@@ -216,6 +221,13 @@ fn gen_knobs(r: &mut Rng, scenario: &str) -> Knobs {
         "deadline" => {
             k.general_timeout_ms = *r.pick(&[50u64, 100, 200]);
         }
+        "reelect" => {
+            // the repair of the deposed leader's log should fit into one request
+            k.cap = *r.pick(&[10u64, 100, 100]);
+            k.snap_threshold = 1000;
+            k.max_pending_writes = 10_000;
+            k.general_timeout_ms = 1000;
+        }
         "lease" | "linread" => {
             // make the requested policies effective so the reads are really strong reads
             k.allow_override = true;
@@ -246,7 +258,7 @@ fn gen_clients(r: &mut Rng, n_clients: u32, n_nodes: u32, horizon: u64, keys: u8
                     92..=95 => OpKind::ReadDefault,
                     _ => OpKind::ReadEventual,
                 },
-                "staletail" => match roll {
+                "staletail" | "reelect" => match roll {
                     0..=74 => OpKind::Put,
                     75..=84 => OpKind::Cas(r.below(3) as u8),
                     85..=89 => OpKind::Delete,
@@ -274,8 +286,9 @@ fn gen_clients(r: &mut Rng, n_clients: u32, n_nodes: u32, horizon: u64, keys: u8
                     _ => OpKind::Empty,
                 },
             };
-            let target = if r.chance(7, 10) { 0 } else { 1 + r.below(n_nodes as u64) as u32 };
-            ops.push(OpPlan { gap_ms: gap, kind, key: r.below(keys as u64) as u8, target, path: r.below(2) as u8 });
+            let to_leader = if scenario == "routing" { r.chance(4, 10) } else { r.chance(7, 10) };
+            let target = if to_leader { 0 } else { 1 + r.below(n_nodes as u64) as u32 };
+            ops.push(OpPlan { gap_ms: gap, kind, key: r.below(keys as u64) as u8, target, path: r.below(3) as u8 });
         }
         out.push(ClientPlan { id: c + 1, start_ms: start, ops });
     }
@@ -306,8 +319,9 @@ fn gen_faults(r: &mut Rng, scenario: &str, horizon: u64, n_voters: u32, masked: 
         let roll = r.below(100);
         let item = match scenario {
             "election" => match roll {
-                0..=34 => Fault::Partition { at, dur: r.range(200, 4000), side: vec![NodeSel::Leader] },
-                35..=54 => Fault::Crash { at, node: sel_any(r), power_loss: r.chance(1, 2), down_ms: r.range(100, 3000) },
+                0..=29 => Fault::Partition { at, dur: r.range(200, 4000), side: vec![NodeSel::Leader] },
+                30..=39 => Fault::CrashOnGrant { at: if r.chance(1, 3) { 0 } else { at }, nth: r.range(1, 4) as u32, power_loss: r.chance(1, 2), down_ms: r.range(10, 400) },
+                40..=54 => Fault::Crash { at, node: sel_any(r), power_loss: r.chance(1, 2), down_ms: r.range(100, 3000) },
                 55..=69 => Fault::OneWay { at, dur: r.range(200, 3000), node: NodeSel::Leader, outbound: r.chance(1, 2) },
                 70..=84 => Fault::SlowReturn { at, dur: r.range(300, 3000), node: NodeSel::Leader, extra_ms: r.range(50, 900) },
                 _ => Fault::BreakStreams { at, a: NodeSel::Leader, b: sel_follower(r) },
@@ -345,6 +359,14 @@ fn gen_faults(r: &mut Rng, scenario: &str, horizon: u64, n_voters: u32, masked: 
                 70..=84 => Fault::SlowLink { at, dur: r.range(500, 4000), src: NodeSel::Leader, dst: sel_follower(r), extra_ms: r.range(50, 600) },
                 _ => Fault::BreakStreams { at, a: NodeSel::Leader, b: sel_follower(r) },
             },
+            "routing" => match roll {
+                // a leader cut off from the majority keeps believing it leads until its lease / verification fails
+                0..=39 => Fault::Partition { at, dur: r.range(500, 5000), side: vec![NodeSel::Leader] },
+                40..=54 => Fault::OneWay { at, dur: r.range(500, 4000), node: NodeSel::Leader, outbound: r.chance(1, 2) },
+                55..=69 => Fault::Crash { at, node: sel_any(r), power_loss: false, down_ms: r.range(100, 2500) },
+                70..=84 => Fault::SlowReturn { at, dur: r.range(300, 3000), node: NodeSel::Leader, extra_ms: r.range(50, 1200) },
+                _ => Fault::ApplyStall { at, node: sel_any(r), dur: r.range(50, 1500) },
+            },
             "deadline" => match roll {
                 0..=39 => Fault::Partition { at, dur: r.range(300, 4000), side: vec![NodeSel::Leader] },
                 40..=59 => Fault::ApplyStall { at, node: NodeSel::Leader, dur: r.range(100, 2500) },
@@ -368,7 +390,7 @@ fn gen_faults(r: &mut Rng, scenario: &str, horizon: u64, n_voters: u32, masked: 
         };
         // containment of open known findings (DESIGN.md §8)
         let skip = match &item {
-            Fault::Crash { .. } | Fault::FullRestart { .. } if is_masked("nongraceful_crash") => true,
+            Fault::Crash { .. } | Fault::FullRestart { .. } | Fault::CrashOnGrant { .. } if is_masked("nongraceful_crash") => true,
             Fault::Crash { power_loss: true, .. } if is_masked("power_loss") => true,
             _ => false,
         };
@@ -381,7 +403,7 @@ fn gen_faults(r: &mut Rng, scenario: &str, horizon: u64, n_voters: u32, masked: 
 }
 
 pub const SCENARIOS: &[&str] =
-    &["staletail", "general", "calm", "election", "lease", "durability", "lag", "snapshot", "deadline", "membership", "routing"];
+    &["reelect", "staletail", "general", "calm", "election", "lease", "durability", "lag", "snapshot", "deadline", "membership", "routing"];
 
 pub fn gen_plan(seed: u64, scenario: &str, masked: &[String]) -> Plan {
     let mut r = Rng::new(seed ^ 0xC1u64.rotate_left(40));
@@ -391,6 +413,7 @@ pub fn gen_plan(seed: u64, scenario: &str, masked: &[String]) -> Plan {
         "lease" | "linread" => *r.pick(&[3u32, 5, 5]),
         "membership" => *r.pick(&[1u32, 3, 3]),
         "routing" => 3,
+        "reelect" => *r.pick(&[3u32, 3, 5]),
         _ => *r.pick(&[1u32, 3, 3, 3, 5]),
     };
     let voters: Vec<u32> = (1..=n_voters).collect();
@@ -400,7 +423,11 @@ pub fn gen_plan(seed: u64, scenario: &str, masked: &[String]) -> Plan {
         let mut fr = r.fork(2);
         gen_faults(&mut fr, scenario, horizon, n_voters, masked)
     };
-    if scenario == "membership" || (scenario == "general" && r.chance(1, 5)) {
+    if scenario == "membership"
+        || (scenario == "general" && r.chance(1, 5))
+        || (scenario == "routing" && r.chance(1, 2))
+        || (scenario == "lease" && r.chance(1, 3))
+    {
         let n_l = r.range(1, 2) as u32;
         for i in 0..n_l {
             let id = n_voters + 1 + i;
@@ -408,7 +435,34 @@ pub fn gen_plan(seed: u64, scenario: &str, masked: &[String]) -> Plan {
             let at = if r.chance(1, 2) { r.range(1000, 3000) } else { r.range(1000, horizon / 2) };
             faults.push(Fault::Join { at, node: id });
         }
+        if scenario == "lease" {
+            // a leader cut off from the voters may still reach a learner (learner ACKs must not count)
+            let l0 = learners[0];
+            for f in faults.iter_mut() {
+                if let Fault::Partition { side, .. } = f {
+                    if side.contains(&NodeSel::Leader) && r.chance(1, 2) {
+                        side.push(NodeSel::Id(l0));
+                    }
+                }
+            }
+        }
         faults.sort_by_key(|x| x.at());
+    }
+    if scenario == "reelect" {
+        // workload stops at t_stop; the leader is cut off across t_stop (so a successor commits entries and
+        // the deposed leader keeps an uncommitted tail), is repaired after the heal with no client traffic,
+        // and then the successor goes away so that the repaired node may be elected next
+        let t_stop = horizon / 2;
+        let t1 = r.range(1500, t_stop.saturating_sub(1200).max(1600));
+        let t2 = t_stop + r.range(300, 1500);
+        let t3 = t2 + r.range(600, 2500);
+        faults.clear();
+        faults.push(Fault::Partition { at: t1, dur: t2 - t1, side: vec![NodeSel::Leader] });
+        if r.chance(2, 3) {
+            faults.push(Fault::Crash { at: t3, node: NodeSel::Leader, power_loss: false, down_ms: r.range(2500, 5000) });
+        } else {
+            faults.push(Fault::Partition { at: t3, dur: r.range(2500, 5000), side: vec![NodeSel::Leader] });
+        }
     }
     let mut knobs = knobs;
     if masked.iter().any(|m| m == "snapshot_install") {
@@ -423,6 +477,22 @@ pub fn gen_plan(seed: u64, scenario: &str, masked: &[String]) -> Plan {
     let clients = {
         let mut cr = r.fork(3);
         gen_clients(&mut cr, n_clients, n_voters + learners.len() as u32, horizon, keys, scenario)
+    };
+    let clients = if scenario == "reelect" {
+        let t_stop = horizon / 2;
+        clients
+            .into_iter()
+            .map(|mut c| {
+                let mut t = c.start_ms;
+                c.ops.retain(|o| {
+                    t += o.gap_ms;
+                    t < t_stop
+                });
+                c
+            })
+            .collect()
+    } else {
+        clients
     };
     let quiet_ms = (10 * knobs.election_max).max(3 * knobs.general_timeout_ms).clamp(8_000, 60_000);
     Plan {
